@@ -87,6 +87,8 @@ def fit(x, w, signed=False):
 
 class Unsupported(Exception): pass
 
+EXTERNAL_CONSTS = {}     # constants of dependencies that the code under test uses (filled below)
+
 _NORM = re.compile(r'\b[a-z_][a-z0-9_]*::(?=[A-Za-z_{]|<impl (?:str|bool|char|u8|usize|\\?\[))')
 def norm_path(c):
     """drop module-path segments (`std::option::Option` -> `Option`): the two MIR dumps qualify paths differently"""
@@ -233,6 +235,8 @@ def type_head(ty):
 
 INT_TYPES = {'u8': (8, False), 'i8': (8, True), 'u16': (16, False), 'i16': (16, True), 'u32': (32, False), 'i32': (32, True),
              'u64': (64, False), 'i64': (64, True), 'u128': (128, False), 'i128': (128, True), 'char': (32, False)}
+
+EXTERNAL_CONSTS['BOM_CHAR'] = z3.BitVecVal(0xFEFF, 32)    # deno_media_type::encoding::BOM_CHAR
 
 # ------------------------------------------------------------------ MIR dump wrapper
 class Mir:
@@ -474,6 +478,9 @@ class Engine:
             if len(cands) == 1: return self.call(cands[0], [], TRUE)
             raise Unsupported('promoted ' + c)
         last = c.split('::')[-1]
+        if last in EXTERNAL_CONSTS: return EXTERNAL_CONSTS[last]
+        m = re.match(r"'\\u\{([0-9a-fA-F]+)\}'$", c)
+        if m: return BV(int(m.group(1), 16), 32)
         for k in (c, last):
             if k in self.mir.consts: return self.const(self.mir.consts[k][1], fr)
         cands = [k for k in self.mir.consts if k.endswith('::' + last)]
